@@ -59,6 +59,9 @@ pub fn main_loop(g: GenFn, e: ExecFn) {
                     Err(m) => format!("panic={}", util::hex(&m)),
                 };
                 writeln!(out, "{}", r).unwrap();
+                // one reply per line, flushed: if the real code hangs or aborts on a request, the
+                // number of replies received identifies that request
+                out.flush().unwrap();
             }
             out.flush().unwrap();
         }
